@@ -593,4 +593,125 @@ theorem push_content (kf : Bool) (fs x : Fs) (p v : Nat) (pkg : Pkg)
                 simp [touches, packageTmpP] at this
               rw [this, hd] at hn; cases hn
 
+/-! ### members of a published tree package -/
+
+theorem step_rename_dir_get (f f' : Fs) (p q : Path) (h : step f (.rename p q) = some f')
+    (hd : get f p = some .dir) : ∀ k, get f' k = get f (swapKey p q k) := by
+  intro k
+  simp only [step, hd] at h
+  split at h <;> cases h
+  rename_i hc
+  obtain ⟨_, _, _, hpq, hqp, _⟩ := hc
+  exact get_moveTree f p q k hpq hqp
+
+def copyOps (base : Path) (ms : List (Nat × Bytes)) : List Op :=
+  ms.map (fun m => Op.copyFile (base ++ [.member m.1]) m.2)
+
+theorem copies_content (base : Path) : ∀ (ms : List (Nat × Bytes)) (f f1 : Fs),
+    run f (atomsAll (copyOps base ms)) = some f1 → (ms.map (·.1)).Nodup →
+    ∀ m ∈ ms, get f1 (base ++ [.member m.1]) = some (.file m.2) := by
+  intro ms
+  induction ms with
+  | nil => intro _ _ _ _ m hm; cases hm
+  | cons m0 r ih =>
+    intro f f1 h hnd m hm
+    simp only [List.map_cons, List.nodup_cons] at hnd
+    have hsplit : atomsAll (copyOps base (m0 :: r))
+        = [Op.createEmpty (base ++ [.member m0.1]), Op.append (base ++ [.member m0.1]) m0.2]
+          ++ atomsAll (copyOps base r) := by
+      simp [copyOps, atomsAll, Op.atoms]
+    rw [hsplit, run_append] at h
+    cases h0 : run f [Op.createEmpty (base ++ [.member m0.1]), Op.append (base ++ [.member m0.1]) m0.2] with
+    | none => rw [h0] at h; cases h
+    | some f' =>
+      rw [h0] at h
+      simp only [Option.bind_some] at h
+      rcases List.mem_cons.mp hm with rfl | hin
+      · have hnot : ∀ op ∈ atomsAll (copyOps base r), ¬ touches op (base ++ [.member m.1]) := by
+          intro op hop htk
+          obtain ⟨o, ho, h2⟩ := atomsAll_touches _ op hop
+          simp only [copyOps, List.mem_map] at ho
+          obtain ⟨m', hm', rfl⟩ := ho
+          have := h2 _ htk
+          simp only [touches, List.append_cancel_left_eq, List.cons.injEq, Seg.member.injEq, and_true] at this
+          exact hnd.1 (List.mem_map.mpr ⟨m', hm', this.symm⟩)
+        rw [run_frame _ _ _ _ h hnot]
+        simp only [run] at h0
+        cases h3 : step f (Op.createEmpty (base ++ [.member m.1])) with
+        | none => rw [h3] at h0; cases h0
+        | some f3 =>
+          rw [h3] at h0; dsimp only at h0
+          cases h4 : step f3 (Op.append (base ++ [.member m.1]) m.2) with
+          | none => rw [h4] at h0; cases h0
+          | some f4 =>
+            rw [h4] at h0; dsimp only at h0; cases h0
+            obtain ⟨c, hc1, hc2⟩ := step_append_spec f3 f' _ _ h4
+            rw [(step_createEmpty_spec f f3 _ h3).1] at hc1; cases hc1
+            rw [hc2]; simp
+      · exact ih f' f1 h hnd.2 m hin
+
+
+
+theorem push_dir_decomp (kf : Bool) (fs x : Fs) (p v : Nat) (ms : List (Nat × Bytes))
+    (hr : run fs (atomsAll (pushOps ⟨true, kf⟩ fs p v (.dir ms))) = some x) :
+    ∃ f0 f1, get f0 (packageTmpP p v) = some .dir
+      ∧ run f0 (atomsAll (copyOps (packageTmpP p v) ms)) = some f1
+      ∧ step f1 (Op.rename (packageTmpP p v) (packageP p v)) = some x := by
+  have hre : pushOps ⟨true, kf⟩ fs p v (.dir ms)
+      = (((mkdirP fs (releaseP p v) ++ rmtreeP fs (packageTmpP p v)) ++ [Op.mkdir (packageTmpP p v)])
+        ++ copyOps (packageTmpP p v) ms) ++ [Op.rename (packageTmpP p v) (packageP p v)] := by
+    simp [pushOps, packageWriteOps, copyOps]
+  have hlast : atomsAll [Op.rename (packageTmpP p v) (packageP p v)] = [Op.rename (packageTmpP p v) (packageP p v)] := rfl
+  have hmk : atomsAll [Op.mkdir (packageTmpP p v)] = [Op.mkdir (packageTmpP p v)] := rfl
+  rw [hre, atomsAll_append, hlast, run_append] at hr
+  cases h1 : run fs (atomsAll (((mkdirP fs (releaseP p v) ++ rmtreeP fs (packageTmpP p v)) ++ [Op.mkdir (packageTmpP p v)])
+        ++ copyOps (packageTmpP p v) ms)) with
+  | none => rw [h1] at hr; cases hr
+  | some f1 =>
+    rw [h1] at hr
+    simp only [Option.bind_some, run] at hr
+    cases h2 : step f1 (Op.rename (packageTmpP p v) (packageP p v)) with
+    | none => rw [h2] at hr; cases hr
+    | some f2 =>
+      rw [h2] at hr; dsimp only at hr; cases hr
+      rw [atomsAll_append, run_append] at h1
+      cases h0 : run fs (atomsAll ((mkdirP fs (releaseP p v) ++ rmtreeP fs (packageTmpP p v)) ++ [Op.mkdir (packageTmpP p v)])) with
+      | none => rw [h0] at h1; cases h1
+      | some f0 =>
+        rw [h0] at h1
+        simp only [Option.bind_some] at h1
+        refine ⟨f0, f1, ?_, h1, h2⟩
+        rw [atomsAll_append, run_append, hmk] at h0
+        cases h00 : run fs (atomsAll (mkdirP fs (releaseP p v) ++ rmtreeP fs (packageTmpP p v))) with
+        | none => rw [h00] at h0; cases h0
+        | some f00 =>
+          rw [h00] at h0
+          simp only [Option.bind_some, run] at h0
+          cases h01 : step f00 (Op.mkdir (packageTmpP p v)) with
+          | none => rw [h01] at h0; cases h0
+          | some f01 => rw [h01] at h0; dsimp only at h0; cases h0; exact step_mkdir_spec _ _ _ h01
+
+/-- every member of a published tree package is at its place with its bytes -/
+theorem push_members (kf : Bool) (fs x : Fs) (p v : Nat) (ms : List (Nat × Bytes))
+    (hr : run fs (atomsAll (pushOps ⟨true, kf⟩ fs p v (.dir ms))) = some x) (hnd : (ms.map (·.1)).Nodup) :
+    ∀ m ∈ ms, get x (packageP p v ++ [.member m.1]) = some (.file m.2) := by
+  obtain ⟨f0, f1, hd, hc, hs⟩ := push_dir_decomp kf fs x p v ms hr
+  have hd1 : get f1 (packageTmpP p v) = some .dir := by
+    rw [← hd]
+    apply run_frame _ _ _ _ hc
+    intro op hop htk
+    obtain ⟨o, ho, h2⟩ := atomsAll_touches _ op hop
+    simp only [copyOps, List.mem_map] at ho
+    obtain ⟨m, _, rfl⟩ := ho
+    have := h2 _ htk
+    simp [touches, packageTmpP] at this
+  intro m hm
+  rw [step_rename_dir_get f1 x _ _ hs hd1]
+  have : swapKey (packageTmpP p v) (packageP p v) (packageP p v ++ [.member m.1])
+      = packageTmpP p v ++ [.member m.1] := by
+    simp [swapKey, packageTmpP, packageP]
+  rw [this]
+  exact copies_content (packageTmpP p v) ms f0 f1 hc hnd m hm
+
+
 end ForML.Registry
